@@ -99,7 +99,8 @@ def placement_clause(model, rep, funcs):
         it = Interp(model, udom, depth=0)
         seen = []
 
-        pm = Matcher(f).find("$ip = $pos.astype(np.int32)")
+        MU = Matcher(f)
+        pm = [x for x in MU.find("$ip = $pos.astype(np.int32)") if isinstance(x[1]["pos"][1], ast.Name) and ".pos" in msrc(MU._exp.canon(x[1]["pos"][1]))]
         pname = msrc(pm[0][1]["pos"][1]) if pm and isinstance(pm[0][1]["pos"][1], ast.Name) else None
 
         def on_stmt(interp, fn, st, env):
